@@ -6,6 +6,8 @@
 extern "C" {
 // a fresh symbolic value in [lo, hi] (inclusive), named for counterexamples and known-finding predicates
 long verif_nondet(const char* name, long lo, long hi);
+// the same value, made concrete (the engine forks once per feasible value): use where a size drives every loop that follows
+long verif_concretize(long v);
 void __CPROVER_assume(bool cond);
 void __CPROVER_assert(bool cond, const char* msg);
 // reachability witness: the check fails as vacuous unless every label the catalogue requires was reached on a feasible path
